@@ -24,7 +24,18 @@ def replay(spec):
         from bioscrape.lineage import LineageModel as Cls
     else:
         Cls = Model
-    M = Cls(**args)
+    if spec.get("edited"):
+        # the same definition reached in two stages around an initialisation
+        a1 = dict(args, reactions=args["reactions"][:1], rules=args["rules"][:1])
+        M = Cls(**a1)
+        M.py_initialize()
+        for rx in args["reactions"][1:]:
+            M.create_reaction(*rx)
+        for ru in args["rules"][1:]:
+            M.create_rule(*ru)
+        M.py_initialize()
+    else:
+        M = Cls(**args)
     tp = np.arange(0, 3, 0.5)
     for name, f in (("pickle", lambda m: pickle.loads(pickle.dumps(m))), ("deepcopy", copy.deepcopy)):
         try:
